@@ -27,7 +27,15 @@ func (c *clipper64) ExecutePolyTree64(clipType ClipType, fillRule FillRule, poly
 	c.buildTree(polytree.PolyPathBase, &oPaths)
 
 	c.clearSolutionOnly()
-	return c.succeeded
+	if !c.succeeded {
+		return false
+	}
+
+	for _, oPath := range oPaths {
+		*openPaths = append(*openPaths, Path64ToPathD(oPath))
+	}
+
+	return true
 }
 
 func (c *clipper64) ExecuteOC(clipType ClipType, fillRule FillRule, solutionClosed, solutionOpen *Paths64) bool {
